@@ -55,6 +55,25 @@ func main() {
 			usage()
 		}
 		os.Exit(cmdFunc(rest[1], tier))
+	case "kernel":
+		s, err := newSession()
+		if err != nil {
+			fmt.Fprintln(os.Stderr, err)
+			os.Exit(2)
+		}
+		fi, ct := s.prog.Funcs[rest[1]], s.cf.Funcs[rest[1]]
+		for _, in := range s.instsFor(fi, ct) {
+			if len(rest) > 2 && in.Name != rest[2] {
+				continue
+			}
+			ki := s.preciseKernel(rest[1], in)
+			if ki.OK {
+				fmt.Printf("%s[%s]: K(x) = %s\n", rest[1], in.Name, ki.Body)
+			} else {
+				fmt.Printf("%s[%s]: NO KERNEL: %s %v\n", rest[1], in.Name, ki.Why, ki.Errs)
+			}
+		}
+		os.Exit(0)
 	case "list":
 		os.Exit(cmdList())
 	case "lemmas":
@@ -355,6 +374,9 @@ func solveAll(obls []*Obligation, tier string) {
 }
 
 func solveOne(o *Obligation, budgetS int, cross bool) {
+	if o.Bounded && o.Res != nil {
+		return
+	}
 	if o.Goal != nil && isTrue(o.Goal) {
 		o.Res = &SolveResult{Status: "unsat", Backend: "syntactic", TimeS: 0}
 		return
